@@ -2,6 +2,7 @@ CONSTANT FIXED = FALSE
 CONSTANT FIXED2 = FALSE
 CONSTANT FIXED3 = FALSE
 CONSTANT FIXED4 = FALSE
+CONSTANT FIXED5 = TRUE
 INIT Init
 NEXT Next
 INVARIANT Refines
